@@ -178,7 +178,7 @@ _ORIGIN_TRUST = [
     'BTreeSet::{is_superset, extend}, the set of items of a Range / slice iterator (specs/origin_body.rs verif_sets), derived Default/Clone of Origin: assumed',
     'Origin::union (iterator adaptor code): assumed contract on the real signature',
 ]
-_LOADB = {'template': 'loadb.rs', 'rlimit': 30, 'items': [r'^token::builder::authorizer::(load_and_translate_block|AuthorizerBuilder::build_inner)$', r'^token::authorizer::snapshot::Authorizer::from_snapshot$']}
+_LOADB = {'template': 'loadb.rs', 'rlimit': 30, 'items': [r'^token::builder::authorizer::(load_and_translate_block|AuthorizerBuilder::build_inner)$', r'^token::authorizer::snapshot::Authorizer::from_snapshot$', r'^token::builder::authorizer::AuthorizerBuilder::from_snapshot$']}
 _LOADB_PROVED = (' Loading a block into the authorizer (load_and_translate_block, for every block, index, key map and every outcome of the symbol-table conversion oracles): every fact of block i is stored under origin '
                  'exactly {i} and nothing else is added to the fact store; every rule of block i is stored as owned by block i with the trusted set of ITS OWN scopes over the default trust of the block '
                  '(the block scopes over {authority, authorizer}, current block i), and nothing else is added to the rule store; existing facts and rules are kept; the key -> block map is not modified; '
@@ -189,7 +189,7 @@ _LOADB_PROVED = (' Loading a block into the authorizer (load_and_translate_block
                  'the result has no cached execution time, a zero iteration counter and the builder\'s limits and policies. '
                  'Restoring a snapshot (Authorizer::from_snapshot, untrusted bytes): blocks is Some only with at least one block (the decision procedure indexes the authority block); block j is registered in the key -> block map '
                  'exactly when it carries an external key (under some key index), and nothing else is; the token-level trusted set is `previous` at the number of blocks; the version is in the supported range; the limits, the iteration counter '
-                 'and the execution time (Some iff non-zero) are the ones of the snapshot.')
+                 'and the execution time (Some iff non-zero) are the ones of the snapshot. AuthorizerBuilder::from_snapshot accepts only a snapshot with no blocks, no generated facts, zero iterations and zero execution time, in the supported version range, and restores its limits.')
 _LOADB_ASSUME = ['unit loadb: FactSet::insert / RuleSet::insert add exactly the given (origin, fact) / (block, trusted set, rule) entry; conversions between symbol tables are functions of (object, source table) - interning in the target table is not modelled; Rule::validate_variables returns',
                  'unit loadb / build_inner: the statement `blocks = Some(token.blocks().enumerate().map(.. load_and_translate_block ..).collect()?)` is an oracle (rule A5): one decoded block per container block plus the authority, key map only read, '
                  'nothing stored under the authorizer origin; PublicKeys::insert returns the index of the first equal key and appends when absent; HashMap entry().or_default().push() appends to the list under the key; Biscuit::block_count = 1 + container blocks (token invariant rep(), unit token)']
